@@ -69,7 +69,7 @@ type summary struct {
 
 var (
 	caseTimeout = 8 * time.Second
-	maxStackMB  = 24
+	maxStackMB  = 8
 	asLimitMB   = 3072
 )
 
@@ -138,6 +138,11 @@ func parentMain(name string, args []string) {
 	m := newMode(name, o)
 	total := m.Count()
 	chunk := total/int64(o.workers*8) + 1
+	if name == "src" {
+		// growing the Go stack for the first deeply nested source costs seconds
+		// per process: few, long-lived workers
+		chunk = total/int64(o.workers*2) + 1
+	}
 	if chunk > 200000 {
 		chunk = 200000
 	}
@@ -148,6 +153,9 @@ func parentMain(name string, args []string) {
 			hi = total
 		}
 		spans = append(spans, span{lo, hi})
+	}
+	if sp, ok := m.(interface{ Spans(int) []span }); ok {
+		spans = sp.Spans(o.workers)
 	}
 	var mu sync.Mutex
 	tot := summary{Mode: name, Counts: map[string]int64{}, Dist: map[string]int64{}}
@@ -191,6 +199,7 @@ func parentMain(name string, args []string) {
 					oc := outcome{Mode: name, I: res.died, Class: res.class, Detail: res.detail, Frames: res.frames,
 						Case: m.Describe(res.died)}
 					oc.Key = m.Key(res.died, res.class, res.detail+" "+res.frames)
+					unbounded := res.class == "timeout" && strings.HasSuffix(oc.Key, "unbounded-work-on-huge-argument")
 					mu.Lock()
 					tot.Counts[res.class]++
 					tot.Ran++
@@ -199,16 +208,22 @@ func parentMain(name string, args []string) {
 						seenKey[oc.Key] = true
 					}
 					mu.Unlock()
-					if !dup && res.class == "timeout" {
+					if !dup && unbounded {
 						oc.Conf = "timeout"
 						mu.Lock()
 						outs = append(outs, oc)
 						mu.Unlock()
 					} else if !dup && res.class != "oom" {
-						// confirm alone, default runtime limits
+						// confirm alone, default runtime limits, long timeout; the
+						// confirming run decides class and key (a timeout under load
+						// that ends normally when run alone is not a failure)
 						c := runWorker(name, args, res.died, res.died+1, true)
 						if c.died >= 0 {
 							oc.Conf = c.class
+							oc.Class, oc.Detail, oc.Frames = c.class, c.detail, c.frames
+							oc.Key = m.Key(res.died, c.class, c.detail+" "+c.frames)
+						} else if len(c.outs) > 0 {
+							oc.Conf = "panic"
 						} else {
 							oc.Conf = "no-failure"
 							for k := range c.sum.Counts {
@@ -216,7 +231,12 @@ func parentMain(name string, args []string) {
 							}
 						}
 						mu.Lock()
-						outs = append(outs, oc)
+						if oc.Conf == "oom" {
+							// outside the claim
+						} else if !seenKey[oc.Key] || oc.Key == m.Key(res.died, res.class, res.detail+" "+res.frames) {
+							seenKey[oc.Key] = true
+							outs = append(outs, oc)
+						}
 						mu.Unlock()
 					}
 					lo = res.died + 1
@@ -313,6 +333,7 @@ func runWorker(name string, args []string, lo, hi int64, confirm bool) workerRes
 	cargs = append(cargs, "--")
 	cargs = append(cargs, args...)
 	cmd := exec.Command(os.Args[0], cargs...)
+	cmd.Env = append(os.Environ(), "GODEBUG=gcshrinkstackoff=1")
 	var so, se bytes.Buffer
 	cmd.Stdout = &so
 	cmd.Stderr = &limitWriter{w: &se, n: 1 << 20}
@@ -426,7 +447,7 @@ func childMain(args []string) {
 	o, _ := parseOpts(name, fs.Args())
 	if !*defaults && name != "src" {
 		debug.SetMaxStack(maxStackMB << 20)
-	} else if *defaults && o.tier != "thorough" && name != "src" {
+	} else if *defaults && o.tier != "thorough" {
 		// quick tier: confirm with a 128 MB stack (the 1 GB default takes ~20 s to overflow)
 		debug.SetMaxStack(128 << 20)
 	}
@@ -482,7 +503,17 @@ func childMain(args []string) {
 		wmu.Lock()
 		cur, curStart = i, time.Now()
 		wmu.Unlock()
+		if sm, ok := m.(interface{ StackMB(int64) int }); ok && !*defaults {
+			if mb := sm.StackMB(i); mb > 0 {
+				debug.SetMaxStack(mb << 20)
+			} else {
+				debug.SetMaxStack(1000000000)
+			}
+		}
 		class := runRecovered(m, i)
+		if os.Getenv("C02_SLOW") != "" && time.Since(curStart) > time.Second {
+			fmt.Fprintf(os.Stderr, "slow case %d %v %v\n", i, time.Since(curStart), m.Describe(i)["recipe"])
+		}
 		sum.Ran++
 		if strings.HasPrefix(class, "panic:") {
 			sum.Counts["panic"]++
@@ -498,7 +529,9 @@ func childMain(args []string) {
 			sum.Dist[d.Dist(i)]++
 		}
 		if o.emit {
-			if e, ok := m.(interface{ Obs(int64, string) map[string]any }); ok {
+			if e, ok := m.(interface {
+				Obs(int64, string) map[string]any
+			}); ok {
 				if ob := e.Obs(i, class); ob != nil {
 					ob["kind"] = "obs"
 					hx.Emit(ob)
